@@ -69,6 +69,23 @@ VARIANTS = [
     fire("c01-count-depends-on-constant-value",
          [(GE, "        if statement.iterations != 1:", '        if getattr(statement.iterations, "value", statement.iterations) != 1:')],
          ("C01.6", "reads-constant-value"), P),
+    fire("c01-parallel-closer-wrong",
+         [(GE, '    if statement.parallel:\n        output += ">\\n"\n    else:\n        output += "}\\n"', '    if statement.parallel:\n        output += "}\\n"\n    else:\n        output += ">\\n"')],
+         ("C01.4", "templates"), P),
+    fire("c01-gate-missing-newline",
+         [(GE, '                )\n            ),\n            "\\n",\n        )\n    )\n\n\ndef generate_jaqal_loop', '                )\n            ),\n            " ",\n        )\n    )\n\n\ndef generate_jaqal_loop')],
+         ("C01.4", "templates"), P),
+    fire("c01-loop-keyword-glued",
+         [(GE, '            "loop ",\n', '            "loop",\n')],
+         ("C01.4", "templates"), P),
+    fire("c01-map-without-brackets",
+         [(GE, '                register.alias_from.name,\n                "[",\n                notate_slice(register.alias_slice),\n                "]\\n",', '                register.alias_from.name,\n                " ",\n                notate_slice(register.alias_slice),\n                "\\n",')],
+         ("C01.4", "templates"), P),
+    fire("c01-usepulses-without-star",
+         [(GE, '    return f"from {usepulses.module} usepulses *\\n"', '    return f"from {usepulses.module} usepulses\\n"')],
+         ("C01.4", "templates"), P),
+    silent("c01-fstring-let",
+           [(GE, '    return "".join(("let ", const.name, " ", generate_jaqal_value(const.value), "\\n"))', '    return f"let {const.name} {generate_jaqal_value(const.value)}\\n"')], P),
     silent("c01-repr-instead-of-str", [(GE, "        text = str(val)\n", "        text = repr(val)\n")], P),
     silent("c01-number-regex-equivalent",
            [(SL, 'NUMBER = r"[-+]?[0-9]*\\.[0-9]+([eE][-+]?[0-9]+)?"', 'NUMBER = r"[+-]?\\d*\\.\\d+(?:[eE][+-]?\\d+)?"')], P),
